@@ -72,7 +72,7 @@ NONE_V = V(NONE, z3.BoolVal(True))
 
 
 def lift(c):
-    if isinstance(c, (V, PyTup, PyFn, PyConstObj, PyDict, PyIte, PyCat)):
+    if isinstance(c, (V, PyTup, PyFn, PyConstObj, PyDict, PyIte, PyCat, Cursor)):
         return c
     if c is None:
         return NONE_V
@@ -461,6 +461,16 @@ def head_tail(v):
         # iteration over items: head is the (key, value) pair as a python-level tuple
         return z3.Not(ty.is_nil(v.t)), PyTup([V(ty.key, ty.k(v.t)), V(ty.val, ty.v(v.t))]), V(ty, ty.tl(v.t))
     raise Unsupported("iteration over %s" % ty)
+
+
+class Cursor:
+    """a name that walks into the nested dict owned by another variable (`cur = root; ...; cur = cur[k]; cur[k2] = v`):
+    an access path into `root`; reads go through the sidecar's path-get spec function, writes are functional updates of root"""
+    __slots__ = ("root", "path")
+
+    def __init__(self, root, path):
+        self.root = root
+        self.path = path
 
 
 class DictItems:
